@@ -300,7 +300,7 @@ class Stack(MixIn):
         Service the .txPkts deque to send packets through server
         Override in subclass
         """
-        while self.handler.opened and self.txPkts:
+        while self.handler.opened and (self.txPkts or self.txbs):  # txbs has unsent rest
             if not self._serviceOneTxPkt():
                 break  # blocked try again later
 
@@ -308,7 +308,7 @@ class Stack(MixIn):
         '''
         Service .txPkts deque once (one pkt)
         '''
-        if self.handler.opened and self.txPkts:
+        if self.handler.opened and (self.txPkts or self.txbs):  # txbs has unsent rest
             self._serviceOneTxPkt()
 
     def transmit(self, pkt):
@@ -1675,7 +1675,8 @@ class TcpClientStack(ClientStreamStack, IpStack):
         Service the .txPkts deque of packed packets to send packets through server
         Override in subclass
         """
-        while (self.txPkts and self.handler.connected and not self.handler.cutoff):
+        while ((self.txPkts or self.txbs) and  # txbs has unsent rest of partial send
+               self.handler.connected and not self.handler.cutoff):
             if not self._serviceOneTxPkt():
                 break  # blocked try again later
 
@@ -1683,7 +1684,8 @@ class TcpClientStack(ClientStreamStack, IpStack):
         '''
         Service .txPkts deque once (one pkt)
         '''
-        if (self.txPkts and self.handler.connected and not self.handler.cutoff):
+        if ((self.txPkts or self.txbs) and  # txbs has unsent rest of partial send
+                self.handler.connected and not self.handler.cutoff):
             self._serviceOneTxPkt()
 
     def _serviceOneReceived(self):
